@@ -374,7 +374,7 @@ def judge(stats, report, spec):
                classes=['adverb:' + spec['adverb'], 'verb:' + spec['verbkind']] + (['chain'] if spec.get('chain') else []),
                sample={"text": spec['text'], "expected": (show(want)[:80] if not isinstance(want, tuple) or want[0] != 'multiset' else 'multiset')})
     case = {"text": spec['text'], "build": spec['build']}
-    key = f"{spec['adverb']} | {spec['verbkind']} | {shape_class(operand)}"
+    key = f"{spec['adverb']} | {spec['verbkind']} | " + ','.join(_opshape(o) for o in spec['operands'])
     if got[0] == 'val' and spec.get('vartext'):
         # the same expression with the operand held in a variable (the expression compiler only sees variables)
         try:
@@ -442,6 +442,20 @@ def judge(stats, report, spec):
                 k[name] = original
             else:
                 k(name + '::' + original)
+
+
+def _has_char_atoms(c):
+    if c[0] == 'l':
+        return any(_has_char_atoms(x) for x in c[1])
+    if c[0] == 'd':
+        return any(_has_char_atoms(k_) or _has_char_atoms(v_) for k_, v_ in c[1])
+    return c[0] in 'cy'
+
+
+def _opshape(c):
+    """operand class used in finding keys: the shape class, marked when the operand holds character or symbol atoms
+    (which klongpy represents as strings - the root cause of a whole family of differences)"""
+    return ('chars:' if _has_char_atoms(c) else '') + shape_class(c)
 
 
 def _show(w):
@@ -566,8 +580,44 @@ def enum_shard(idx, nshards):
     return stats
 
 
+def hyp_shard(seed_value, n):
+    """generated operands (C01's recursive operand strategy) for every case shape of the enumeration"""
+    from hypothesis import given, strategies as st
+    from .c01_verbs import operand_strategy
+    stats = core.Stats()
+    f = core.Findings("C02")
+    opnd = operand_strategy()
+    mon_advs = [a for a in MONADIC_ADVERBS if a not in (':~', '\\~')]
+
+    @st.composite
+    def builds(draw):
+        kind = draw(st.sampled_from(['mon', 'mon', 'dy', 'it', 'chain']))
+        if kind == 'mon':
+            adv = draw(st.sampled_from(mon_advs))
+            verbs = MONADIC if VERB_ARITY[adv] == 1 else DYADIC
+            return ('mon', adv, draw(st.integers(0, len(verbs) - 1)), draw(opnd))
+        if kind == 'dy':
+            adv = draw(st.sampled_from(["'", ':\\', ':/', '/', '\\']))
+            return ('dy', adv, draw(st.integers(0, len(DYADIC) - 1)), draw(opnd), draw(opnd))
+        if kind == 'it':
+            return ('it', draw(st.sampled_from([':*', '\\*'])), draw(st.integers(0, len(MONADIC) - 1)), draw(st.integers(0, 4)), draw(opnd))
+        adv1 = draw(st.sampled_from(["'", '/', '\\', ":'"]))
+        verbs = MONADIC if VERB_ARITY[adv1] == 1 else DYADIC
+        return ('chain', adv1, draw(st.integers(0, len(verbs) - 1)), draw(st.sampled_from(["'", ':~', '\\~'])), draw(opnd))
+
+    def make_test(report):
+        @given(builds())
+        def t(b):
+            judge(stats, report, build(b))
+        return t
+    core.hyp_collect(stats, make_test, seed_value, n, rounds=10, is_known=lambda k: f.match(k) is not None)
+    return stats
+
+
 def check(run):
+    quick = run.tier == 'quick'
     run.absorb(core.pool_map('vk.c02_adverbs', 'enum_shard', [(i, 16) for i in range(16)]))
+    run.absorb(core.pool_map('vk.c02_adverbs', 'hyp_shard', [(run.seed * 1000 + i, 400 if quick else 15000) for i in range(16)]))
     run.exhaustive = True
     run.coverage_extra['exhaustive_parts'] = ['adverbs x verb forms x operand universe', 'two-adverb chains x operand universe']
 
